@@ -206,12 +206,17 @@ theorem C17_no_input_after_close (h : Host) (hc : Closed h) (s q : Nat) (d u e :
   obtain ⟨hd, ht, hcl, _⟩ := hc
   simp [step, ht, hcl, hd]
 
-/-- **The raise sites.**  In any state, the only blocks that hand an exception to a caller are: a close that
-was suspended waiting for start-up, or an API call (`NotRunningException`), and the cancellation of the task
-awaiting a close (`CancelledError`).  Timers and task resumptions never raise — before or after close. -/
+/-- the blocks of close calls (sync and async) and of start-up — everything a close does except being cancelled -/
+def Block.plainClose : Block → Bool
+  | .closeCall _ | .closeWake _ _ | .closeGoodbye _ | .closeMarkDone _ | .closeShutdown _ | .closeFinish _ | .startUp => true
+  | _ => false
+
+/-- **The raise sites.**  In any state, the only blocks that hand an exception to a caller are: an API call on a done
+instance (`NotRunningException`) and the cancellation, by its caller, of the task awaiting a close (`CancelledError`).
+Timers, task resumptions and **every step of every close call** never raise — before or after close. -/
 theorem C17_raise_sites (h : Host) (b : Block) (h' : Host) (o : List Out) (hs : step h b = some (h', o))
     (e : Exc) (he : Out.raised e ∈ o) :
-    (e = .notRunning ∧ ((∃ i t, b = .closeWake i t) ∨ ∃ k, b = .apiCall k)) ∨ (e = .cancelled ∧ ∃ i, b = .closeAbort i) := by
+    (e = .notRunning ∧ ∃ k, b = .apiCall k) ∨ (e = .cancelled ∧ ∃ i, b = .closeAbort i) := by
   have hgr : ∀ l : List Out, (∀ x ∈ l, ∀ e', x ≠ Out.raised e') → ∀ e', Out.raised e' ∉ gated h l := by
     intro l hl e' hm
     rcases gated_sub h l with g | g <;> rw [g] at hm
@@ -317,7 +322,7 @@ theorem C17_raise_sites (h : Host) (b : Block) (h' : Host) (o : List Out) (hs : 
     · simp only [Option.some.injEq, Prod.mk.injEq] at hs
       obtain ⟨_, rfl⟩ := hs
       simp only [List.mem_singleton, Out.raised.injEq] at he
-      exact Or.inl ⟨he, Or.inr ⟨k, rfl⟩⟩
+      exact Or.inl ⟨he, k, rfl⟩
     · split at hs
       · simp at hs
       · cases k <;>
@@ -343,10 +348,9 @@ theorem C17_raise_sites (h : Host) (b : Block) (h' : Host) (o : List Out) (hs : 
       · split at hs
         · simp at hs
         · split at hs
-          · simp only [Option.some.injEq, Prod.mk.injEq] at hs
-            obtain ⟨_, rfl⟩ := hs
-            simp only [List.mem_singleton, Out.raised.injEq] at he
-            exact Or.inl ⟨he, Or.inl ⟨i, t, rfl⟩⟩
+          · rename_i hr
+            rw [wakeRaises_suppressed] at hr
+            exact absurd hr (by decide)
           · simp only [Option.some.injEq, Prod.mk.injEq] at hs
             obtain ⟨_, rfl⟩ := hs
             exact absurd he (hbody _ _)
@@ -392,44 +396,67 @@ theorem C17_raise_sites (h : Host) (b : Block) (h' : Host) (o : List Out) (hs : 
          exact Or.inr ⟨he, i, rfl⟩)
       | simp at hs
 
-/-- a close that waited for start-up raises exactly when it was not its own timeout that woke it and the
-instance is no longer running or already done — i.e. another close (or a failed start) got there first -/
-theorem C17_wake_raises_iff (h : Host) (i : Nat) (t : Bool) (h' : Host) (o : List Out)
-    (hs : step h (.closeWake i t) = some (h', o)) :
-    Out.raised .notRunning ∈ o ↔ (t = false ∧ (h.running = false ∨ h.done = true)) := by
+/-- **No close call ever hands an exception to its caller** (other than the `CancelledError` of its own cancellation):
+every block of every `async_close()` — called on a running instance, during start-up, overlapping any number of other
+closes, woken by the start-up event or by its own 1 s timeout, after another close has finished — and every block of
+the modelled sync `close()` from a non-loop thread.  (Not covered: `EventLoopBlocked` out of sync `close()` on a blocked
+loop — outside the loop axioms.)  False before fix 25230c1: `C17_wake_raised_before_fix`. -/
+theorem C17_close_never_raises (h : Host) (b : Block) (hb : b.plainClose = true) (h' : Host) (o : List Out)
+    (hs : step h b = some (h', o)) (e : Exc) : Out.raised e ∉ o := by
+  intro he
+  rcases C17_raise_sites h b h' o hs e he with ⟨_, k, rfl⟩ | ⟨_, i, rfl⟩ <;> simp [Block.plainClose] at hb
+
+/-- the same for whole histories: with no API call and no cancellation by a caller among the blocks, nothing raises —
+whatever interleaving of any number of sync/async closes, start-up, timers, tasks and traffic -/
+theorem C17_nothing_raises_run (bs : List Block) (hapi : ∀ b ∈ bs, ∀ k, b ≠ .apiCall k) (hab : ∀ b ∈ bs, ∀ i, b ≠ .closeAbort i) :
+    ∀ (h h' : Host) (o : List Out), run h bs = some (h', o) → ∀ e, Out.raised e ∉ o := by
+  induction bs with
+  | nil =>
+    intro h h' o hr e
+    simp only [run, Option.some.injEq, Prod.mk.injEq] at hr
+    obtain ⟨_, rfl⟩ := hr
+    simp
+  | cons b rest ih =>
+    intro h h' o hr e he
+    obtain ⟨s1, o1, o2, h1, h2, rfl⟩ := run_cons h b rest h' o hr
+    rcases List.mem_append.mp he with hm | hm
+    · rcases C17_raise_sites h b s1 o1 h1 e hm with ⟨_, k, rfl⟩ | ⟨_, i, rfl⟩
+      · exact hapi _ (by simp) k rfl
+      · exact hab _ (by simp) i rfl
+    · exact ih (fun x hx => hapi x (by simp [hx])) (fun x hx => hab x (by simp [hx])) s1 h' o2 h2 e hm
+
+/-- a close that was parked waiting for start-up always proceeds when woken: it reaches its goodbye phase -/
+theorem C17_wake_proceeds (h : Host) (i : Nat) (t : Bool) (h' : Host) (o : List Out)
+    (hs : step h (.closeWake i t) = some (h', o)) : ∃ k, h'.closes[i]? = some ⟨false, .unregistering k⟩ := by
   simp only [step] at hs
   split at hs
-  · split at hs
-    · rename_i ht
-      simp only [Option.some.injEq, Prod.mk.injEq] at hs
-      obtain ⟨_, rfl⟩ := hs
-      simp only [ht, Bool.true_eq_false, false_and, iff_false]
-      simp only [closeBody]
-      split
-      · simp
-      · intro hm
-        rcases gated_sub h [.goodbye] with g | g <;> rw [g] at hm <;> simp at hm
-    · rename_i ht
-      have ht' : t = false := by simpa using ht
-      split at hs
+  · rename_i hi
+    have hlt : i < h.closes.length := (List.getElem?_eq_some_iff.mp hi).1
+    have body : ∀ h2 o2, (let r := closeBody h false; some (r.1.setStage i false r.2.2, r.2.1)) = some (h2, o2) →
+        ∃ k, h2.closes[i]? = some ⟨false, .unregistering k⟩ := by
+      intro h2 o2 he
+      simp only [Option.some.injEq, Prod.mk.injEq] at he
+      obtain ⟨rfl, _⟩ := he
+      obtain ⟨k, hk⟩ := closeBody_stage h false
+      refine ⟨k, ?_⟩
+      simp [Host.setStage, closeBody, hlt] at hk ⊢
+      exact hk
+    split at hs
+    · exact body _ _ hs
+    · split at hs
       · simp at hs
       · split at hs
         · rename_i hr
-          simp only [Option.some.injEq, Prod.mk.injEq] at hs
-          obtain ⟨_, rfl⟩ := hs
-          simp only [List.mem_singleton, true_iff]
-          exact ⟨ht', (wait_raises_after_iff _ _).mp hr⟩
-        · rename_i hr
-          simp only [Option.some.injEq, Prod.mk.injEq] at hs
-          obtain ⟨_, rfl⟩ := hs
-          have : ¬(h.running = false ∨ h.done = true) := fun hh => hr ((wait_raises_after_iff _ _).mpr hh)
-          simp only [this, and_false, iff_false]
-          simp only [closeBody]
-          split
-          · simp
-          · intro hm
-            rcases gated_sub h [.goodbye] with g | g <;> rw [g] at hm <;> simp at hm
+          rw [wakeRaises_suppressed] at hr
+          exact absurd hr (by decide)
+        · exact body _ _ hs
   · simp at hs
+
+/-- the witness of finding D17, kept as a fact about the *old* `async_close` (whose `suppress` did not list
+`NotRunningException`): a close woken by the start-up event raised exactly when the instance was no longer running or
+already done -/
+theorem C17_wake_raised_before_fix (r d : Bool) : wakeRaises false r d = true ↔ (r = false ∨ d = true) := by
+  simp [wakeRaises, wait_raises_after_iff]
 
 /-! ## the goodbyes -/
 
@@ -586,27 +613,44 @@ theorem C17_idempotent (h : Host) (hc : Closed h) :
   · simp [reclose, recloseResult, hr, run, step, close_no_wait_of_done, closeBody, Host.setStage, moreGoodbyes, register_broadcasts, bind,
       Option.bind, pure, gated, hd, ht, hcl, send_blocked_of_done]
 
-/-- the full statement "no close call ever raises" is false: two `async_close()` calls made before the engine
-finished starting — the first one to wake shuts the instance down, the second wakes up in
-`async_wait_for_start`, finds `done`, and raises `NotRunningException` to its caller (finding D16) -/
-def Block.plainClose : Block → Bool
-  | .closeCall _ | .closeWake _ _ | .closeGoodbye _ | .closeMarkDone _ | .closeShutdown _ | .closeFinish _ | .startUp => true
-  | _ => false
+/-- the remaining blocks of an `async_close()` that was parked waiting for start-up as call `i` -/
+def rewake (h : Host) (i : Nat) : List Block :=
+  .closeWake i false :: ((if h.registry = 0 then [] else [.closeGoodbye i, .closeGoodbye i]) ++ [.closeShutdown i, .closeFinish i])
 
-def C17_close_never_raises : Prop :=
-  ∀ (h : Host) (bs : List Block) (h' : Host) (o : List Out), h.closes = [] → (∀ b ∈ bs, b.plainClose = true) →
-    run h bs = some (h', o) → ∀ e, Out.raised e ∉ o
+def rewakeResult (h : Host) (i : Nat) : Host :=
+  { done := true, running := false, transportsClosed := true, cleanupArmed := false, registry := 0,
+    browsers := cancelTracked h.browsers, outq := h.outq, tc := h.tc, lookups := h.lookups, probing := h.probing,
+    announcing := h.announcing, closes := h.closes.set i ⟨false, .returned⟩ }
 
-def d16Host : Host :=
+/-- **C17, closing again is a no-op — also for closes that overlapped start-up.**  A close call that was parked in
+`wait_for(async_wait_for_start(), 1)` while another close finished (the D17 situation) wakes on a closed host, runs
+through all its blocks, emits nothing — no datagram, no callback, **no exception** — returns, and leaves every flag as it
+was.  Together with `C17_idempotent` (a close *called* on a closed host) this makes "closing again is a no-op" hold for
+every async close, whenever it was called. -/
+theorem C17_idempotent_waiting (h : Host) (hc : Closed h) (i : Nat) (hi : h.closes[i]? = some ⟨false, .waitingStart⟩) :
+    ∃ h', run h (rewake h i) = some (h', []) ∧ Closed h' ∧ h'.done = h.done ∧ h'.transportsClosed = h.transportsClosed ∧
+      h'.cleanupArmed = h.cleanupArmed := by
+  obtain ⟨hd, ht, hcl, hret⟩ := hc
+  obtain ⟨hlt, hget⟩ := List.getElem?_eq_some_iff.mp hi
+  have hcl' : Closed (rewakeResult h i) := by
+    refine ⟨rfl, rfl, rfl, ?_⟩
+    simp only [rewakeResult]
+    exact any_set_of_not _ i _ _ hi rfl hret
+  refine ⟨rewakeResult h i, ?_, hcl', by simp [rewakeResult, hd], by simp [rewakeResult, ht], by simp [rewakeResult, hcl]⟩
+  by_cases hr : h.registry = 0
+  · simp [rewake, rewakeResult, hr, run, step, hget, wakeRaises_suppressed, closeBody, Host.setStage, bind, Option.bind, pure,
+      hd, ht, hcl, hlt]
+  · simp [rewake, rewakeResult, hr, run, step, hget, wakeRaises_suppressed, closeBody, Host.setStage, moreGoodbyes,
+      register_broadcasts, bind, Option.bind, pure, gated, hd, ht, hcl, hlt, send_blocked_of_done]
+
+/-- two `async_close()` calls made before the engine finished starting (the D17 scenario) -/
+def d17Host : Host :=
   { done := false, running := false, transportsClosed := false, cleanupArmed := true, registry := 0, browsers := [],
     outq := 0, tc := 0, lookups := 0, probing := 0, announcing := 0, closes := [] }
 
-def d16Blocks : List Block :=
-  [.closeCall false, .closeCall false, .startUp, .closeWake 0 false, .closeShutdown 0, .closeWake 1 false, .closeFinish 0]
-
-theorem C17_close_never_raises_refuted : ¬ C17_close_never_raises := by
-  intro hf
-  exact absurd (hf d16Host d16Blocks _ _ rfl (by decide) rfl .notRunning) (by decide)
+def d17Blocks : List Block :=
+  [.closeCall false, .closeCall false, .startUp, .closeWake 0 false, .closeShutdown 0, .closeWake 1 false, .closeFinish 0,
+   .closeShutdown 1, .closeFinish 1]
 
 /-! ### non-vacuity -/
 
@@ -649,8 +693,9 @@ example : ∃ r, run busy overlapSeq = some r ∧ Closed r.1 ∧ WF r.1 ∧
 example : busy.closes = [] ∧ busy.done = false ∧ busy.running = true ∧ busy.transportsClosed = false ∧ 0 < busy.registry := by decide
 example : Block.mid3 (.recv 1 1 false true) = true ∧ Block.mid3 (.closeCall true) = true ∧ Block.mid3 (.closeAbort 1) = true
     ∧ Block.mid3 (.probeStep true) = false ∧ Block.mid3 (.closeShutdown 1) = false ∧ Block.mid3 (.closeAbort 0) = false := by decide
--- D16 concretely: the second close raises, the first returns
-example : (run d16Host d16Blocks).map (fun r => (r.2, r.1.closes.map (·.stage))) =
-    some ([.raised .notRunning], [.returned, .aborted]) := by decide
+-- the D17 scenario on the repaired tree: the overtaken close wakes after the other one shut the instance down, proceeds,
+-- and both return; nothing is emitted, nothing raises
+example : (run d17Host d17Blocks).map (fun r => (r.2, r.1.closes.map (·.stage))) = some ([], [.returned, .returned]) := by decide
+example : ∃ r, run d17Host d17Blocks = some r ∧ Closed r.1 := by decide
 
 end Zc.Shutdown
